@@ -58,6 +58,7 @@ def check(run):
     close(run, p, km, gm)
     cache(run, p, km)
     datelang(run, p)
+    rexclosure(run, p)
 
 
 def shared(run, p, gm):
@@ -134,7 +135,9 @@ def close(run, p, km, gm):
             ver = km[kind][0]
             clo = dep_closure_at(dn, c.args[0])
             t = tables.table(ver.node, tables.pick_result())
-            ok = agg in clo and 'len' in clo and 'self.calc_unique_values' in clo and len(t) == 1 and t[0][2] in EQ_OK
+            vclo = calcs(dep_closure(ver.node, names_in(t[0][3].value.left)), gm) if t and isinstance(t[0][3].value, ast.Compare) else set()
+            same_stat = calcs(clo, gm) == vclo and bool(vclo)
+            ok = ((agg in clo and 'len' in clo and 'self.calc_unique_values' in clo) or same_stat) and len(t) == 1 and t[0][2] in EQ_OK
             run.ob('C01-CLOSE', 'kind:%s' % kind, ok,
                    '%s: discovered as %s(len(v)) over the distinct values; verifier `%s`' % (kind, agg, t[0][2] if t else None), fn=disc, node=c)
     # nulls
@@ -330,3 +333,27 @@ def datelang(run, p):
     ok = 'str(self.value)' in src and 'datetime.datetime' in src and 'datetime.date' in src
     run.ob('C01-DATELANG', 'tdda/constraints/base.py::Constraint.to_dict_value::writer', ok, 'date values are rendered with str()', fn=w, nontrivial=False)
     run.floor('C01-DATELANG', 3 + len(readers), 6)
+
+
+def rexclosure(run, p):
+    """The rex half of closure: the default (fuzzy) comparator is exact-or-fuzzed, and rexpy's own guarantees (C03)."""
+    from .c02 import fuzz_shape
+    fuzz_shape(run, p, 'C01-CLOSE')
+    from . import c03
+    I = c03.interp(p)
+    flags = p.const('tdda.rexpy.rexpy', 'RE_FLAGS')
+    before = len(run.obs)
+    c03.loop(run, p)
+    c03.klass(run, p, I, flags)
+    c03.bracket(run, p, I, flags, 'C03')
+    c03.widen(run, p, I)
+    c03.engine(run, p)
+    c03.catsync(run, p)
+    ren = {}
+    for o in run.obs[before:]:
+        ren[o.rule] = o.rule.replace('C03-', 'C01-REX-')
+        o.rule = ren[o.rule]
+    for old, new in ren.items():
+        if old in run.rules:
+            run.rules[new] = run.rules.pop(old) + ' (rex constraints are discovered by rexpy and must match their own column)'
+    run.floors = [((ren.get(r, r)), c, m) for r, c, m in run.floors]
